@@ -3,9 +3,14 @@
 package livesim
 
 import (
+	"bytes"
+	"compress/gzip"
+	"context"
 	"fmt"
+	"io"
 	"net/http"
 	"net/http/httptest"
+	"strings"
 	"sync"
 	"testing"
 	"testing/synctest"
@@ -245,6 +250,9 @@ func runPlan(t *testing.T, p *Plan, c *checker) {
 				}
 				rec := httptest.NewRecorder()
 				req := httptest.NewRequest(st.Method, "/debug?"+st.Query, nil)
+				if st.Gzip {
+					req.Header.Set("Accept-Encoding", "gzip")
+				}
 				func() {
 					defer func() {
 						if r := recover(); r != nil {
@@ -253,7 +261,34 @@ func runPlan(t *testing.T, p *Plan, c *checker) {
 					}()
 					webstack.SnapshotHandler(rec, req)
 				}()
-				c.checkResponseReg(st.Method, st.Query, rec.Code, rec.Header().Get("Content-Type"), rec.Body.String(), queryValid(st.Method, st.Query), pre, truncated, settled())
+				body := rec.Body.String()
+				if rec.Header().Get("Content-Encoding") == "gzip" {
+					// a handler that compresses must send a complete stream
+					zr, err := gzip.NewReader(strings.NewReader(body))
+					var plain []byte
+					if err == nil {
+						plain, err = io.ReadAll(zr)
+					}
+					if err != nil && queryValid(st.Method, st.Query) {
+						c.fail("valid-response", "%s /debug?%s (Accept-Encoding: gzip): the compressed page cannot be read to its end: %v", st.Method, st.Query, err)
+					}
+					body = string(plain)
+					c.probes["response-gzip"]++
+				}
+				c.checkResponseReg(st.Method, st.Query, rec.Code, rec.Header().Get("Content-Type"), body, queryValid(st.Method, st.Query), pre, truncated, settled())
+			case "cancelreq":
+				synctest.Wait()
+				ctx, cancel := context.WithCancel(context.Background())
+				cancel()
+				func() {
+					defer func() {
+						if r := recover(); r != nil {
+							c.fail("panic", "handler panicked for a request whose context was cancelled (%s ?%s): %v", st.Method, st.Query, r)
+						}
+					}()
+					webstack.SnapshotHandler(httptest.NewRecorder(), httptest.NewRequest(st.Method, "/debug?"+st.Query, nil).WithContext(ctx))
+				}()
+				c.probes["request-context-cancelled"]++
 			case "failreq":
 				synctest.Wait()
 				fw := &failWriter{rec: httptest.NewRecorder(), failAt: st.FailAt}
@@ -318,5 +353,15 @@ func runPlan(t *testing.T, p *Plan, c *checker) {
 		}
 		time.Sleep(1001 * time.Hour)
 		synctest.Wait()
+		// every request has been answered: nothing of the handler may be left behind
+		if s, _, _ := stack.ScanSnapshot(bytes.NewReader(fullStack()), io.Discard, &stack.Opts{}); s != nil {
+			for _, g := range s.Goroutines {
+				for _, cl := range g.Stack.Calls {
+					if strings.Contains(cl.Func.Complete, "/webstack.") {
+						c.fail("leak", "after all requests were answered goroutine %d [%s] is still inside package webstack (%s)", g.ID, g.State, cl.Func.Complete)
+					}
+				}
+			}
+		}
 	})
 }
